@@ -196,6 +196,15 @@ CHECKS = {
             "reader conventions applied (unset initial-state attributes -> 0, stop line without points -> lanelet end, sign "
             "first_occurrence not in the schema). Known finding listed: sign 'virtual' flag is lost (pinned tests assert it)",
             "DESIGN.md §4 C01"),
+    "C03": ("deviation-bounded exhaustive enumeration of scenario specs (C01 spec set + a magnitude menu at k<=2) x decimal "
+            "precisions; every written file is validated with lxml against the shipped XSD, lexically scanned and opened with "
+            "the library's reader",
+            "General menu (~950 deviations, k<=1 x d in {1,4,12} (thorough 1..12), pairs 1/16 (thorough all) at d=4) for "
+            "element order, required elements, enumerations and id key/keyref; magnitude menu (138 deviations: orientations "
+            "1e-6/-3e-5/1e-16, lengths/radii 5e-5..1e16, coordinates 1e5..1e16 and -0.0, time-step sizes, gps, scaling) at "
+            "k<=1 for d=1..12 and all pairs at d in {1,4} (thorough {1,2,4,12}).",
+            "trusted: lxml/libxml2 XSD validation; the lexical scan regex -?\\d+(\\.\\d+)? over the numeric leaf elements",
+            "DESIGN.md §4 C03"),
 }
 
 NOT_YET = {}
